@@ -21,7 +21,7 @@ RULE = ("directory trees with a root and decoy layer files outside it (in a sibl
         "removed): exit status and stdout must be identical, and strace must show no successful open of a decoy file; where the outcome is "
         "exactly whether the input path can be opened through the root (links inside and outside, relative/absolute/chained/directory links, inputs "
         "outside) the directory tree is snapshotted and Model.Root.root_open must agree with bkl -r on success and on the content read; non-trivial = the input "
-        "actually reaches for a decoy; distinct by hash")
+        "actually reaches for a decoy; also: files merged by the same parser before SetRoot never turn a refused merge into an accepted one; distinct by hash")
 
 ATTACKS = ["parent_dotdot", "parent_abs", "parent_wild", "symlink_rel", "symlink_abs", "symlink_chain", "dir_symlink", "filename_chain_link",
            "input_outside", "input_dotdot", "benign", "benign_chain", "parent_list",
@@ -212,6 +212,44 @@ def nested_roots_pass(ctx, rng, n, dist):
     return n
 
 
+def reads_before_roots_pass(ctx, rng, n, dist):
+    """implementation only: files merged by the same parser BEFORE SetRoot (a decoy outside the later root among them) must not
+    change what is refused afterwards - the final merge of a file whose $parent leaves the root succeeds or fails exactly as
+    on a parser that read nothing before (that case is the one compared with Model.Root in nested_roots_pass)"""
+    base = os.path.join(ctx.work, "prereads")
+    shutil.rmtree(base, ignore_errors=True)
+    os.makedirs(os.path.join(base, "r", "a", "b"))
+    os.makedirs(os.path.join(base, "r2"))
+    files = {"r/top.yaml": {"top": 1}, "r/a/mid.yaml": {"mid": 1}, "r2/decoy.yaml": {"secret": "S1"},
+             "r/a/esc.yaml": {"$parent": "../../r2/decoy", "e": 1}, "r/a/b/up.yaml": {"$parent": "../../top", "u": 1},
+             "r/a/b/side.yaml": {"$parent": "../mid", "s": 1}, "r/a/b/in.yaml": {"in": 1}}
+    for rel, doc in files.items():
+        open(os.path.join(base, rel), "w").write(gen.emit("yaml", [doc]))
+    pre_pool = [["r2/decoy.yaml"], ["r/top.yaml"], ["r2/decoy.yaml", "r/top.yaml"], ["r/a/mid.yaml"], ["r/a/esc.yaml"], ["r/a/b/up.yaml"]]
+    cases = []
+    for i in range(n):
+        r = rng.fork("p%d" % i)
+        roots = [r.pick(["r", "r/a", "r/a/b", "."]) for _ in range(1 + r.below(2))]
+        f = r.pick(["r/a/esc.yaml", "r/a/b/up.yaml", "r/a/b/side.yaml", "r/a/b/in.yaml"])
+        pre = r.pick(pre_pool)
+        cases.append(["setroots-after-reads", base, pre, roots, f])
+        cases.append(["setroots-after-reads", base, [], roots, f])
+    im = ctx.impl(cases)
+    for j in range(0, len(cases), 2):
+        c, a, b = cases[j], im[j], im[j + 1]
+        k = "prereads_" + (b[0] if isinstance(b, list) and b else "?")
+        dist[k] = dist.get(k, 0) + 1
+        if isinstance(a, list) and a and a[0] == "pre-err":
+            continue
+        # only the widening direction is a leak: documents already in the parser may make the final merge fail for reasons of
+        # their own (the same file merged twice, say), which is no concern of this property
+        if a == ["merge-ok"] and b == ["merge-err"] and len(ctx.violations) < 5:
+            ctx.violations.append({"name": "prereads-" + core.vhash(c[2:]), "property": "C18", "kind": "failing-input",
+                                   "why": "after reading %r and then SetRoot %r, merging %s gives %s; a parser that read nothing before gives %s"
+                                          % (c[2], c[3], c[4], a, b), "pre": c[2], "roots": c[3], "file": c[4], "class": "c18-reads-before-roots"})
+    return n
+
+
 def run(ctx):
     n = ctx.n(40, 400)
     rng = core.Rng(ctx.seed)
@@ -301,6 +339,7 @@ def run(ctx):
                                    "class": "c18-escape"})
     # library: sequences of nested SetRoot calls, then a file, against Model.Root.set_roots / root_open
     evals += nested_roots_pass(ctx, rng.fork("nested"), ctx.n(40, 400), dist)
+    evals += reads_before_roots_pass(ctx, rng.fork("prereads"), ctx.n(30, 300), dist)
     # library: nested SetRoot through the harness (fixed scenarios)
     lib = ctx.impl([["setroot", os.path.join(ctx.work, "lib")]])
     dist["nested_setroot"] = core.to_jsonable(lib[0])
